@@ -20,6 +20,7 @@ for p in "$@"; do
   echo "== $p"
   ( cd "$vc" && VERIF_REPO="$wt" timeout 1500 ./check "$p" ${TIER:+--tier $TIER} 2>&1 | grep -E "^(OK|VIOLATION|KNOWN-FINDING|MACHINERY|driver build|setup|harness)" | cut -c1-300 )
 done
+if [ -n "${KEEP:-}" ]; then echo "kept: $wt $vc"; exit 0; fi
 git -C /repo worktree remove --force "$wt"
 rm -rf "$vc"
 git -C /repo worktree prune
